@@ -74,6 +74,9 @@ static const char *traits_name(const struct type_traits *t)
 	if (t == type_properties<uint8_t>::traits()) return "x1";
 	if (t == type_properties<Pod>::traits()) return "x12";
 	if (t == type_properties<Elem>::traits()) return "xe";
+	if (t == type_traits::get('c')) return "c";
+	if (t == type_traits::get('i')) return "i";
+	if (t == type_traits::get('d')) return "d";
 	return "?";
 }
 struct H
@@ -87,6 +90,7 @@ struct H
 	virtual void *insert(size_t, size_t, const void *) { return 0; }
 	virtual void *append(size_t, const void *) { return 0; }
 	virtual bool from_slice(const H &, size_t, size_t) { return false; }
+	virtual int setv(const value &) { return -1; }
 	/* typed */
 	virtual int tinsert(long, const uint8_t *) { return -1; }
 	virtual int tset(long, const uint8_t *) { return -1; }
@@ -115,6 +119,7 @@ struct HA : H
 	void *set(size_t n, const void *d) { return a.set(n, d); }
 	void *insert(size_t o, size_t n, const void *d) { return a.insert(o, n, d); }
 	void *append(size_t n, const void *d) { return a.append(n, d); }
+	int setv(const value &v) { return a.set(v); }
 	bool from_slice(const H &o, size_t off, size_t len)
 	{
 		slice sl(static_cast<const HA &>(o).a);
@@ -434,6 +439,24 @@ int main(void)
 			else if (!strcmp(op, "append") && drv_nw == 4) {
 				if (data_arg(drv_w[3], &dat, &dlen, &isnull)) BAD;
 				result_ptr(hs[h]->append(dlen, isnull ? 0 : dat), h);
+			}
+			else if (!strcmp(op, "setv") && drv_nw == 5) {         /* array::set(const value &): s string, i int32, d double */
+				if (data_arg(drv_w[4], &dat, &dlen, &isnull) || isnull) BAD;
+				value v;
+				char *txt = 0; const char *tp; int32_t iv; double dv;
+				int r;
+				if (!strcmp(drv_w[3], "s")) {
+					if (memchr(dat, 0, dlen)) BAD;
+					txt = (char *) malloc(dlen + 1); memcpy(txt, dat, dlen); txt[dlen] = 0; tp = txt;
+					v.set('s', &tp);
+				}
+				else if (!strcmp(drv_w[3], "i") && dlen == 4) { memcpy(&iv, dat, 4); v.set('i', &iv); }
+				else if (!strcmp(drv_w[3], "d") && dlen == 8) { memcpy(&dv, dat, 8); v.set('d', &dv); }
+				else BAD;
+				r = hs[h]->setv(v);
+				free(txt);
+				if (r < 0) result("refused", drv_errname(r));
+				else { char ret[16]; snprintf(ret, sizeof(ret), "%d", r); result("ok", ret); }
 			}
 			else if (!strcmp(op, "setslice") && drv_nw == 6) {     /* h = slice(h2) restricted to [off, off+len) */
 				if ((h2 = handle_arg(drv_w[3])) < 0 || drv_parse_nat(drv_w[4], &a) || drv_parse_nat(drv_w[5], &b)) BAD;
